@@ -53,6 +53,29 @@ def job_signal_disposition(res):
     res.obs.append(Ob('in all %d translation units the only call that touches signal handling is main\'s signal(SIGINT, Display::SIGINT_handler): the handler is never replaced, the signal never ignored or blocked (found: %s)' % (len(bld['ll']), [(a, b, c) for a, b, c, d in sites]),
                       'holds' if ok else 'violated', key='signal-disposition', detail='' if ok else str(sites[:4]), cex=None if ok else {'replay': 'structural', 'sites': [list(x) for x in sites[:4]]}))
 
+def job_process_state(res):
+    """what an object computes must not depend on which object of the process came first: no translation unit of the program keeps hidden process-wide state - neither a function-local static inside a
+    vfps function (initialised once, by whichever object gets there first) nor a mutable file-scope static.  Census over the IR of every translation unit (class statics such as PhaseSpace::nx or
+    Display::abort are declared interface, not hidden state)."""
+    bld = all_build(); import re as _re
+    found = []
+    for name, path in sorted(bld['ll'].items()):
+        n = 0
+        for ln in open(path):
+            n += 1
+            if not (ln.startswith('@') and ' = ' in ln): continue
+            g, body = ln.split(' = ', 1)
+            if 'declare' in body[:10] or body.lstrip().startswith('external'): continue
+            const = _re.search(r'\bconstant\b', body.split('{')[0].split('[')[0][:120]) is not None
+            if '_ZZN4vfps' in g or '_ZGVZN4vfps' in g or '_ZZN12_GLOBAL__N_1' in g:
+                if not const: found.append((name, g.strip('@ ')[:120], 'function-local static'))
+            elif _re.match(r'@(_ZL|_ZN4vfpsL|_ZN12_GLOBAL__N_1)', g) and not const and 'comdat' not in body[:40]:
+                found.append((name, g.strip('@ ')[:120], 'file-scope static'))
+        res.instrs += n
+    res.paths += len(bld['ll'])
+    res.obs.append(Ob('no translation unit of the program (%d) keeps hidden process-wide state: no mutable function-local static in a vfps function, no mutable file-scope static (found %d)' % (len(bld['ll']), len(found)),
+                      'holds' if not found else 'violated', key='process-wide-state', detail=str(found[:3]), cex=None if not found else {'replay': 'structural', 'statics': [list(x) for x in found[:6]]}))
+
 def main(tier):
     chk = Check('C14', tier, '4/C14')
     import c10
